@@ -191,7 +191,12 @@ pub trait ByteReader {
         Self: Sized,
         D: Deserializable,
     {
-        let mut result = Vec::with_capacity(num_elements);
+        // `num_elements` frequently comes from the (untrusted) input itself, so it must not be
+        // used to reserve memory unchecked: a huge value would overflow the capacity computation
+        // or abort the process on a failed allocation before a single element has been read
+        const MAX_PREALLOCATED_BYTES: usize = 1 << 16;
+        let max_preallocated = MAX_PREALLOCATED_BYTES / core::mem::size_of::<D>().max(1);
+        let mut result = Vec::with_capacity(num_elements.min(max_preallocated));
         for _ in 0..num_elements {
             let element = D::read_from(self)?;
             result.push(element)
